@@ -36,6 +36,10 @@ FILES = {
     "only_defs_dup_function": "let f() : 1 = close self\nlet f() : 1 = close self\n",
     "procs_commented_out": "let g(x : 1) : 1 = close self\n// prc[a] : 1 = print hello; close self\n/* prc[b] : 1 = close self */\n",
     "only_assumption": "assuming x : 1 * 1\n",
+    # forwards: an unchecked run reads the polarity of a forward from the explicit annotation (+x / -x), a checked one from the type
+    "fwd_explicit_pos": "prc[a] : 1 = x : 1 <- new close self; fwd self +x\nprc[b] : 1 = wait a; print done; close self\n",
+    "fwd_explicit_neg": "type N = &{go : 1}\nprc[s] : N = case self (go<c> => print served; close c)\nprc[f] : N = fwd self -s\nprc[m] : 1 = r : 1 <- new f.go<self>; wait r; print done; close self\n",
+    "fwd_unannotated": "prc[a] : 1 = x : 1 <- new close self; fwd self x\nprc[b] : 1 = wait a; print done; close self\n",
     "open_program": "assuming x : 1\nprc[a] : 1 = wait x; print never; close self\n",
     "rejected_but_runnable": "prc[a] : 1 = print unchecked; close self\nprc[b] : 1 * 1 = print second; close self\n",
 }
